@@ -152,12 +152,12 @@ type State struct {
 // of Root at every (mutating) event. Valid when the operation under test runs
 // on the calling goroutine and nothing else writes below Root meanwhile.
 type Recorder struct {
-	Root    string                   // directory whose states are saved
-	SaveDir string                   // where the copies go (outside Root)
-	Want    func(ev vos.Event) bool  // nil: every event except OpenDir
-	Torn    bool                     // also derive torn-file states (see below)
-	PartialRemove bool               // also derive states of an interrupted RemoveAll (some entries already unlinked)
-	OnEvent func(ev vos.Event) error // optional: called first; its error is returned for Pre events (fail action)
+	Root          string                   // directory whose states are saved
+	SaveDir       string                   // where the copies go (outside Root)
+	Want          func(ev vos.Event) bool  // nil: every event except OpenDir
+	Torn          bool                     // also derive torn-file states (see below)
+	PartialRemove bool                     // also derive states of an interrupted RemoveAll (some entries already unlinked)
+	OnEvent       func(ev vos.Event) error // optional: called first; its error is returned for Pre events (fail action)
 
 	Events []vos.Event
 	States []State
@@ -165,7 +165,8 @@ type Recorder struct {
 	Err    error
 
 	lastSig    string
-	lastCreate *vos.Event // most recent successful create-type post event not followed by another mutating op
+	lastCreate *vos.Event   // most recent successful create-type post event not followed by another mutating op
+	preExist   map[int]bool // OpSeq -> did the entry the operation creates exist before it
 }
 
 // createdPath returns the file a successful create-type post event produced.
@@ -189,6 +190,15 @@ func createdPath(ev vos.Event) (string, bool) {
 // Hook is the vos.Hook of the recorder.
 func (r *Recorder) Hook(ev vos.Event) error {
 	r.Events = append(r.Events, ev)
+	if ev.Phase == vos.Pre {
+		if t := entryTarget(ev); t != "" {
+			if r.preExist == nil {
+				r.preExist = map[int]bool{}
+			}
+			_, err := os.Lstat(t)
+			r.preExist[ev.Seq] = err == nil
+		}
+	}
 	var ret error
 	if r.OnEvent != nil {
 		ret = r.OnEvent(ev)
@@ -468,4 +478,192 @@ func KillAt(k int, logPath, root string) vos.Hook {
 		}
 		return nil
 	}
+}
+
+// ---------------------------------------------------------------------------
+// Lost unsynced directory entries (power-loss model for the namespace).
+
+// entryTarget returns the directory entry an operation adds ("" if none).
+func entryTarget(ev vos.Event) string {
+	switch ev.Op {
+	case "Create", "WriteFile", "Mkdir", "MkdirAll":
+		return ev.Paths[0]
+	case "OpenFile":
+		if ev.Flag&os.O_CREATE != 0 {
+			return ev.Paths[0]
+		}
+	case "Rename", "Link", "Symlink":
+		return ev.Paths[1]
+	case "CreateTemp", "MkdirTemp":
+		return ev.Created // known at the post event only
+	}
+	return ""
+}
+
+type pendingOp struct {
+	barrier   bool // an operation that cannot be undone (unlink, entry moved away)
+	rename    bool
+	src, dst  string // current paths (rewritten when a parent directory is renamed later)
+	origDst   string // dst as it was when the operation ran
+	overwrote bool
+	preSeq    int
+}
+
+func underDir(p, dir string) bool {
+	return p == dir || strings.HasPrefix(p, dir+string(filepath.Separator))
+}
+
+// LostEntryStates derives, from the crash state st (a state of kind "event"
+// saved by r), the states a power loss can leave when directory entries that
+// were not yet made durable are lost: for every directory, the entry
+// additions (creates, renames into it) performed since the directory was last
+// opened for fsync ("OpenDir" event) are undone newest first - once only the
+// newest, once all of them - stopping at the first operation that cannot be
+// undone (an unlink or an entry moved out of the directory). The file data
+// itself is left as it is. States equal to one already in seen are skipped.
+func (r *Recorder) LostEntryStates(st State, seen map[string]bool) []State {
+	pend := map[string][]pendingOp{}
+	rekey := func(from, to string) {
+		for k, ops := range pend {
+			nk := k
+			if underDir(k, from) {
+				nk = to + k[len(from):]
+			}
+			for i := range ops {
+				if ops[i].dst != "" && underDir(ops[i].dst, from) {
+					ops[i].dst = to + ops[i].dst[len(from):]
+				}
+			}
+			if nk != k {
+				delete(pend, k)
+				pend[nk] = append(pend[nk], ops...)
+			}
+		}
+	}
+	for _, ev := range r.Events {
+		if ev.Seq > st.Ev.Seq {
+			break
+		}
+		if ev.Phase != vos.Post || ev.Err != nil {
+			continue
+		}
+		if ev.Seq == st.Ev.Seq && st.Ev.Phase == vos.Pre {
+			break
+		}
+		switch ev.Op {
+		case "OpenDir":
+			delete(pend, filepath.Clean(ev.Paths[0]))
+			continue
+		case "Remove", "RemoveAll":
+			p := filepath.Clean(ev.Paths[0])
+			pend[filepath.Dir(p)] = append(pend[filepath.Dir(p)], pendingOp{barrier: true})
+			for k := range pend {
+				if underDir(k, p) {
+					delete(pend, k)
+				}
+			}
+			continue
+		}
+		t := entryTarget(ev)
+		if t == "" || !r.inRoot(t) {
+			continue
+		}
+		t = filepath.Clean(t)
+		existed := r.preExist[ev.OpSeq]
+		if ev.Op == "Rename" {
+			src := filepath.Clean(ev.Paths[0])
+			rekey(src, t)
+			if filepath.Dir(src) != filepath.Dir(t) {
+				pend[filepath.Dir(src)] = append(pend[filepath.Dir(src)], pendingOp{barrier: true})
+			}
+			pend[filepath.Dir(t)] = append(pend[filepath.Dir(t)], pendingOp{rename: true, src: src, dst: t, origDst: t, overwrote: existed, preSeq: ev.OpSeq})
+			continue
+		}
+		if existed {
+			continue // no new entry (MkdirAll of an existing directory, truncating create)
+		}
+		pend[filepath.Dir(t)] = append(pend[filepath.Dir(t)], pendingOp{dst: t, origDst: t, preSeq: ev.OpSeq})
+	}
+	rel := func(p string) string { x, _ := filepath.Rel(r.Root, p); return x }
+	var out []State
+	var dirs []string
+	for d := range pend {
+		dirs = append(dirs, d)
+	}
+	sort.Strings(dirs)
+	for di, d := range dirs {
+		ops := pend[d]
+		start := len(ops)
+		for start > 0 && !ops[start-1].barrier {
+			start--
+		}
+		suffix := ops[start:]
+		if len(suffix) == 0 {
+			continue
+		}
+		variants := []int{1}
+		if len(suffix) > 1 {
+			variants = append(variants, len(suffix))
+		}
+		for _, n := range variants {
+			kind := "lost-newest"
+			if n > 1 {
+				kind = "lost-all"
+			}
+			label := fmt.Sprintf("%s-%s-d%d", st.Label, kind, di)
+			dst := filepath.Join(r.SaveDir, label)
+			if err := CopyTree(st.Dir, dst); err != nil {
+				continue
+			}
+			ok := true
+			for i := len(suffix) - 1; i >= len(suffix)-n && ok; i-- {
+				op := suffix[i]
+				cur := filepath.Join(dst, rel(op.dst))
+				if _, err := os.Lstat(cur); err != nil {
+					continue // entry already gone (removed or moved later): nothing to lose
+				}
+				if !op.rename {
+					ok = os.RemoveAll(cur) == nil
+					continue
+				}
+				back := filepath.Join(dst, rel(op.src))
+				if _, err := os.Lstat(filepath.Dir(back)); err != nil {
+					ok = false // the source directory no longer exists
+					break
+				}
+				if _, err := os.Lstat(back); err == nil {
+					ok = false // something else took the old name since
+					break
+				}
+				if os.Rename(cur, back) != nil {
+					ok = false
+					break
+				}
+				if op.overwrote {
+					// the entry that the rename replaced comes back: take it from the
+					// last state saved before the rename
+					var from string
+					for _, s2 := range r.States {
+						if s2.Kind == "event" && s2.Ev.Seq <= op.preSeq {
+							from = s2.Dir
+						}
+					}
+					if from == "" || CopyTree(filepath.Join(from, rel(op.origDst)), cur) != nil {
+						ok = false
+					}
+				}
+			}
+			sig := ""
+			if ok {
+				sig = TreeSig(dst)
+			}
+			if !ok || seen[sig] {
+				os.RemoveAll(dst)
+				continue
+			}
+			seen[sig] = true
+			out = append(out, State{Ev: st.Ev, Kind: kind, Dir: dst, Label: label})
+		}
+	}
+	return out
 }
